@@ -323,7 +323,6 @@ func indexRoles(index []byte, blob func(digest string) ([]byte, bool), add func(
 	if index == nil {
 		return fmt.Errorf("no index.json")
 	}
-	add("index", sha(index))
 	var ix struct {
 		Manifests []struct {
 			Digest   string
@@ -333,18 +332,14 @@ func indexRoles(index []byte, blob func(digest string) ([]byte, bool), add func(
 	if err := json.Unmarshal(index, &ix); err != nil {
 		return err
 	}
-	var order []string
-	for _, m := range ix.Manifests {
-		order = append(order, m.Platform.Architecture+m.Platform.Variant)
-	}
-	add("index-platform-order", strings.Join(order, ","))
+	// leaves first (layers, config, manifest, then the index), so that the first
+	// differing artifact is the most specific one
 	for _, m := range ix.Manifests {
 		arch := m.Platform.Architecture + m.Platform.Variant
 		mb, ok := blob(m.Digest)
 		if !ok {
 			return fmt.Errorf("manifest %s (%s) not found", m.Digest, arch)
 		}
-		add(arch+"/manifest", sha(mb))
 		var im struct {
 			Config struct{ Digest string }
 			Layers []struct{ Digest string }
@@ -352,12 +347,6 @@ func indexRoles(index []byte, blob func(digest string) ([]byte, bool), add func(
 		if err := json.Unmarshal(mb, &im); err != nil {
 			return err
 		}
-		cb, ok := blob(im.Config.Digest)
-		if !ok {
-			return fmt.Errorf("config %s (%s) not found", im.Config.Digest, arch)
-		}
-		add(arch+"/config", sha(cb))
-		add(arch+"/layer-count", fmt.Sprint(len(im.Layers)))
 		img := image{Manifest: m.Digest, Config: im.Config.Digest}
 		for _, l := range im.Layers {
 			img.Layers = append(img.Layers, strings.TrimPrefix(l.Digest, "sha256:")+".tar.gz")
@@ -365,6 +354,7 @@ func indexRoles(index []byte, blob func(digest string) ([]byte, bool), add func(
 		if images != nil {
 			*images = append(*images, img)
 		}
+		add(arch+"/layer-count", fmt.Sprint(len(im.Layers)))
 		for i, l := range im.Layers {
 			lb, ok := blob(l.Digest)
 			if !ok {
@@ -372,7 +362,19 @@ func indexRoles(index []byte, blob func(digest string) ([]byte, bool), add func(
 			}
 			add(fmt.Sprintf("%s/layer[%d]", arch, i), sha(lb))
 		}
+		cb, ok := blob(im.Config.Digest)
+		if !ok {
+			return fmt.Errorf("config %s (%s) not found", im.Config.Digest, arch)
+		}
+		add(arch+"/config", sha(cb))
+		add(arch+"/manifest", sha(mb))
 	}
+	var order []string
+	for _, m := range ix.Manifests {
+		order = append(order, m.Platform.Architecture+m.Platform.Variant)
+	}
+	add("index-platform-order", strings.Join(order, ","))
+	add("index", sha(index))
 	return nil
 }
 
